@@ -48,11 +48,6 @@ def audit():
 def queries(tier):
     qs = [PyQuery("shared-state-audit-all-units", audit)]
     for fam, nm in FAMS.items():
-        if fam == 3:
-            # chained-simple is not run under (a): CBMC 6.11's multi-threaded encoding returns a counterexample for it
-            # (a = 0x400000020200000) that reproduces neither natively nor in single-threaded CBMC, where C01 decides the same
-            # functions for all inputs - an artefact of the tool's concurrency model, so the cell was removed (DESIGN.md, C17)
-            continue
         if tier == "quick" and fam in (0, 4, 7):
             continue
         qs.append(Query("two-threads-" + nm, "conc/two.c", UNITS, defs={"FAM": fam}, checks="none", unwind=20, timeout=1200, weight=3,
